@@ -12,7 +12,7 @@ Fixpoint detb (s : spec) : bool :=
   match s with
   | SLeaf _ | SRaise _ => true
   | SList _ cs => (nfail cs <=? 1) && (fix all (l : list spec) : bool := match l with [] => true | c :: r => detb c && all r end) cs
-  | SSeq cs | SAll cs => (fix all (l : list spec) : bool := match l with [] => true | c :: r => detb c && all r end) cs
+  | SSeq cs | SAll cs | SAllRec cs => (fix all (l : list spec) : bool := match l with [] => true | c :: r => detb c && all r end) cs
   | SCatch c => detb c
   end.
 
@@ -26,6 +26,8 @@ Proof. cbn [detb]. rewrite detall_eq. reflexivity. Qed.
 Lemma detb_seq cs : detb (SSeq cs) = detall cs.
 Proof. cbn [detb]. apply detall_eq. Qed.
 Lemma detb_all cs : detb (SAll cs) = detall cs.
+Proof. cbn [detb]. apply detall_eq. Qed.
+Lemma detb_allrec cs : detb (SAllRec cs) = detall cs.
 Proof. cbn [detb]. apply detall_eq. Qed.
 
 Definition UNI (s : spec) : Prop := detb s = true -> forall o1 o2, adm s o1 -> adm s o2 -> o1 = o2.
@@ -82,14 +84,35 @@ Proof.
   - apply (IH Dr) with (c1 := c1) (c2 := c2); auto. destruct (fails c); lia.
 Qed.
 
+(** if every child has a value, no admissible outcome list contains an error *)
+Lemma oks_no_ko cs vs outs e :
+  Forall2 (fun c v => adm c (Ok v)) cs vs -> Forall2 (fun c o => adm c o) cs outs -> In (Ko e) outs -> False.
+Proof.
+  intros F. revert outs. induction F as [|c v cs vs Hv _ IH]; intros outs O I.
+  - inversion O; subst. contradiction.
+  - inversion O as [|? o ? outs' Ho Hos]; subst. destruct I as [->|I].
+    + eapply fails_true_no_ok; [|exact Hv]. destruct (fails c) eqn:F0; auto. exfalso. eapply fails_false_no_ko; eauto.
+    + eapply IH; eauto.
+Qed.
+
+Lemma uni_outs cs : Forall UNI cs -> detall cs = true ->
+  forall o1 o2, Forall2 (fun c o => adm c o) cs o1 -> Forall2 (fun c o => adm c o) cs o2 -> o1 = o2.
+Proof.
+  induction 1 as [|c r Hc _ IH]; intros Hd o1 o2 H1 H2.
+  - inversion H1; inversion H2; reflexivity.
+  - simpl in Hd. apply andb_true_iff in Hd. destruct Hd as [Dc Dr].
+    inversion H1 as [|? a1 ? r1 A1 B1]; subst. inversion H2 as [|? a2 ? r2 A2 B2]; subst.
+    rewrite (Hc Dc a1 a2 A1 A2). f_equal. eapply IH; eauto.
+Qed.
+
 Theorem adm_unique s : UNI s.
 Proof.
-  induction s as [z|e|p cs IH|cs IH|c IH|cs IH] using spec_ind'; intros Hd o1 o2 H1 H2.
+  induction s as [z|e|p cs IH|cs IH|c IH|cs IH|cs IH] using spec_ind'; intros Hd o1 o2 H1 H2.
   - inversion H1; inversion H2; subst; reflexivity.
   - inversion H1; inversion H2; subst; reflexivity.
   - rewrite detb_list in Hd. apply andb_true_iff in Hd. destruct Hd as [Hn Hd]. apply Nat.leb_le in Hn.
-    inversion H1 as [ | |p1 cs1 vs1 F1|p1 cs1 c1 e1 I1 K1| | | | | | ]; subst;
-    inversion H2 as [ | |p2 cs2 vs2 F2|p2 cs2 c2 e2 I2 K2| | | | | | ]; subst.
+    inversion H1 as [ | |p1 cs1 vs1 F1|p1 cs1 c1 e1 I1 K1| | | | | | | | ]; subst;
+    inversion H2 as [ | |p2 cs2 vs2 F2|p2 cs2 c2 e2 I2 K2| | | | | | | | ]; subst.
     + rewrite (uni_oks cs IH Hd vs1 vs2 F1 F2). reflexivity.
     + exfalso. destruct (fails (SList p cs)) eqn:F.
       * eapply fails_true_no_ok; [exact F|exact H1].
@@ -99,8 +122,8 @@ Proof.
       * eapply fails_false_no_ko; [exact F|exact H1].
     + f_equal. exact (uni_any cs IH Hd Hn c1 c2 e1 e2 I1 K1 I2 K2).
   - rewrite detb_seq in Hd.
-    inversion H1 as [ | | | |cs1 vs1 F1|cs1 pre1 c1 post1 vs1 e1 E1 P1 K1| | | | ]; subst;
-    inversion H2 as [ | | | |cs2 vs2 F2|cs2 pre2 c2 post2 vs2 e2 E2 P2 K2| | | | ]; subst.
+    inversion H1 as [ | | | |cs1 vs1 F1|cs1 pre1 c1 post1 vs1 e1 E1 P1 K1| | | | | | ]; subst;
+    inversion H2 as [ | | | |cs2 vs2 F2|cs2 pre2 c2 post2 vs2 e2 E2 P2 K2| | | | | | ]; subst.
     + rewrite (uni_oks _ IH Hd vs1 vs2 F1 F2). reflexivity.
     + exfalso. destruct (fails (SSeq (pre2 ++ c2 :: post2))) eqn:F.
       * eapply fails_true_no_ok; [exact F|exact H1].
@@ -110,14 +133,14 @@ Proof.
       * eapply fails_false_no_ko; [exact F|exact H1].
     + f_equal. eapply (uni_first _ IH Hd pre1 c1 post1 vs1 e1 pre2 c2 post2 vs2 e2); eauto.
   - cbn [detb] in Hd.
-    inversion H1 as [ | | | | | |c1 v1 A1|c1 e1 A1| | ]; subst; inversion H2 as [ | | | | | |c2 v2 A2|c2 e2 A2| | ]; subst.
+    inversion H1 as [ | | | | | |c1 v1 A1|c1 e1 A1| | | | ]; subst; inversion H2 as [ | | | | | |c2 v2 A2|c2 e2 A2| | | | ]; subst.
     + apply (IH Hd); assumption.
     + exfalso. assert (E : Ok v1 = Ko e2) by (apply (IH Hd); assumption). discriminate.
     + exfalso. assert (E : Ko e1 = Ok v2) by (apply (IH Hd); assumption). discriminate.
     + assert (E : Ko e1 = Ko e2) by (apply (IH Hd); assumption). congruence.
   - rewrite detb_all in Hd.
-    inversion H1 as [ | | | | | | | |cs1 vs1 F1|cs1 pre1 c1 post1 vs1 e1 E1 P1 K1]; subst;
-    inversion H2 as [ | | | | | | | |cs2 vs2 F2|cs2 pre2 c2 post2 vs2 e2 E2 P2 K2]; subst.
+    inversion H1 as [ | | | | | | | |cs1 vs1 F1|cs1 pre1 c1 post1 vs1 e1 E1 P1 K1| | ]; subst;
+    inversion H2 as [ | | | | | | | |cs2 vs2 F2|cs2 pre2 c2 post2 vs2 e2 E2 P2 K2| | ]; subst.
     + rewrite (uni_oks _ IH Hd vs1 vs2 F1 F2). reflexivity.
     + exfalso. destruct (fails (SAll (pre2 ++ c2 :: post2))) eqn:F.
       * eapply fails_true_no_ok; [exact F|exact H1].
@@ -126,6 +149,13 @@ Proof.
       * eapply fails_true_no_ok; [exact F|exact H2].
       * eapply fails_false_no_ko; [exact F|exact H1].
     + f_equal. eapply (uni_first _ IH Hd pre1 c1 post1 vs1 e1 pre2 c2 post2 vs2 e2); eauto.
+  - rewrite detb_allrec in Hd.
+    inversion H1 as [ | | | | | | | | | |cs1 vs1 F1|cs1 outs1 e1 O1 I1]; subst;
+    inversion H2 as [ | | | | | | | | | |cs2 vs2 F2|cs2 outs2 e2 O2 I2]; subst.
+    + rewrite (uni_oks _ IH Hd vs1 vs2 F1 F2). reflexivity.
+    + exfalso. exact (oks_no_ko cs vs1 outs2 e2 F1 O2 I2).
+    + exfalso. exact (oks_no_ko cs vs2 outs1 e1 F2 O1 I1).
+    + rewrite (uni_outs _ IH Hd outs1 outs2 O1 O2). reflexivity.
 Qed.
 
 (** every schedule that finishes yields the same outcome *)
